@@ -117,7 +117,21 @@ func c06Check(c *ctx, name, text string, k int) (accepted bool, T *lr.ParsingTab
 	}
 	var err error
 	pv, stack := safely(func() { T, err = o.S.LALRParsingTable() })
-	if up := append(unproductive(o.Prods), cyclicNTs(o.Prods)...); len(up) > 0 {
+	up := append(unproductive(o.Prods), cyclicNTs(o.Prods)...)
+	if rd := refRead(text); len(up) > 0 && rd.Tree != nil && !rd.Scan.Masked && c01Sig(rd.Tree) == "" {
+		// degenerate according to emerge's own productions: is the grammar AS WRITTEN degenerate too? If not, the
+		// translation of the extended operators introduced the cycle / the useless non-terminal.
+		if g2, _ := refTranslate(rd.Tree); len(unproductive(g2.Prods)) == 0 && len(cyclicNTs(g2.Prods)) == 0 {
+			msg := "a table"
+			if err != nil {
+				msg = "rejected: " + firstLines(err.Error(), 3)
+			}
+			c.violate(violation{Case: name, Input: text, Observed: fmt.Sprintf("emerge's productions have degenerate non-terminals %v (%s)", up, msg),
+				Expected: "the grammar as written has no cyclic or unproductive non-terminal (translated the textbook way): its productions must not have one either", Note: "productions: " + prodsOf(o.Prods)})
+			return false, nil, o
+		}
+	}
+	if len(up) > 0 {
 		// textbook LR constructions presume a reduced grammar; a non-terminal that derives no terminal string is outside
 		// what the property's "LALR(1) grammar" speaks about. Not judged here (a crash on such input is C14's).
 		c.masked()
@@ -775,6 +789,14 @@ var c06Families = []struct{ name, text string }{
 	{"kernel-contained-rand25786", "grammar g; @left \"z\" \"z\" start = \"z\" (\"z\" | start) {\"z\"} ;"},
 	{"kernel-contained-wf861", "grammar x9 ; start = \"then\" | ( \"then\" \"then\" factor | \"{{\" factor ) \"!\" | factor { \"{{\" factor \"then\" } ( \"{{\" \"!\" | factor factor start | factor \"then\" \"!\" ) ; factor = \"then\" ; @right \"then\" ; @none \"{{\" ;"},
 	{"kernel-contained-wf5055", "grammar calc ; @right \"+\" < start = start genx > \"if\" ; genx = {{ \"+\" genx gen | gen }} \"if\" \"+\" ; gen = \"if\" \"if\" ; start = \"if\" ;"},
+	{"parentheses-around-one-repetition", "grammar g; start = ( { \"x\" } ) \"y\";"},
+	{"parentheses-around-one-option", "grammar g; start = ( [ \"x\" ] ) \"y\";"},
+	{"parentheses-around-one-plus", "grammar g; start = ( {{ a }} ) \"y\"; a = \"x\";"},
+	{"parentheses-around-parentheses", "grammar g; NUM = /[0-9]/; start = ( ( \"+\" | \"-\" ) ) NUM;"},
+	{"option-around-group", "grammar g; start = [ ( \"x\" \"y\" ) ] \"z\";"},
+	{"repetition-around-group-of-one", "grammar g; start = { ( \"x\" ) } \"y\";"},
+	{"triple-nesting", "grammar g; start = ( [ ( { \"x\" } ) ] ) \"y\";"},
+	{"group-of-generated-looking-rule", "grammar g; start = ( generic_star ) \"y\"; generic_star = \"x\" | generic_star \"x\";"},
 	{"plus-over-alternation", "grammar g; start = {{ \"a\" | \"b\" }} \"c\";"},
 	{"nested-closures", "grammar g; start = { [\"a\"] \"b\" } {{ (\"c\" | \"d\") }};"},
 	{"left-and-right-recursion", "grammar g; start = l r; l = l \"a\" | \"a\"; r = \"b\" r | \"b\";"},
